@@ -53,9 +53,14 @@ func GetLengthLimitedID(fixedPrefix, suffix string, maxLength int) string {
 	prefixLen := len(fixedPrefix)
 	suffixLen := len(suffix)
 	totalLen := prefixLen + suffixLen
-	if totalLen > maxLength || (totalLen == maxLength && suffix[0:1] == shortenedPrefix) {
-		// Either it's just too long, or it's exactly the right length but it happens to
-		// start with the character that we use to denote a shortened string, which could
+	// A shortened suffix is the marker followed by as much of the encoded hash as fits; when the
+	// limit leaves room for more than the whole hash (e.g. nftables' 256 character names) that is
+	// shorter than the limit.
+	shortenedLen := min(maxLength-prefixLen, len(shortenedPrefix)+base64.RawURLEncoding.EncodedLen(sha256.Size))
+	looksShortened := suffix[0:1] == shortenedPrefix && (totalLen == maxLength || suffixLen == shortenedLen)
+	if totalLen > maxLength || looksShortened {
+		// Either it's just too long, or it has the length of a shortened string and it happens
+		// to start with the character that we use to denote a shortened string, which could
 		// result in a clash.  Hash the value and truncate...
 		hasher := sha256.New()
 		_, err := hasher.Write([]byte(suffix))
